@@ -38,7 +38,7 @@ DEFAULT_PROFILE = dict(
     real_special=True,
     union_constraints=True,
     inline_depth=2,
-    neg_defaults=False,
+    neg_defaults=True,
     inline_enum_explicit=True,
     bit_trailing_one=False,   # BIT STRING values always end in a 1 bit (KF: UPER/OER drop trailing zero bits)
     real_decimal15=False,     # REAL values exactly representable in <= 15 significant decimal digits (BASIC/CANONICAL XER text)
